@@ -25,6 +25,8 @@ var c19NamePool = []string{"work", "home", "a", "b", "zeta", "alpha", "default",
 func init() {
 	// names that look like paths: a bookmark name is whatever follows the '@', also when it contains separators or dots
 	c19NamePool = append(c19NamePool, "clients/acme", "a/b/c", "dot.klg", "../up", "x:y", "@clients/acme")
+	// names that differ in letter case only, and names whose byte order and case-folded order differ
+	c19NamePool = append(c19NamePool, "Work", "work", "WORK", "Zeta", "zeta", "Alpha", "home", "Home")
 }
 
 // c19RandomName draws an arbitrary valid-UTF-8 name (1-8 characters) that does not start with '-' and does not contain " -> " or a newline.
@@ -91,7 +93,10 @@ func c19History(e *core.Env, r *core.Rand, idx int64) {
 	_ = os.RemoveAll(root)
 	defer os.RemoveAll(root)
 	cfg := filepath.Join(root, "klog cfg")
-	_ = os.MkdirAll(cfg, 0755)
+	_ = os.MkdirAll(root, 0755)
+	if !(idx%16 == 5 && e.KlogBin != "" && idx%32 == 5) {
+		_ = os.MkdirAll(cfg, 0755)
+	} // else: real processes whose KLOG_CONFIG_HOME does not exist yet - the first write has to create it there
 	// targets
 	dirs := []string{"plain", "with space", "quo'te", "dq\"x", "ünï", "nested/deep"}
 	nT := r.Range(3, 6)
@@ -382,6 +387,12 @@ func c19Observe(e *core.Env, r *core.Rand, run func(args ...string) (int, string
 	}
 	if !sort.StringsAreSorted(plain) {
 		e.Violation("bookmarks-list-unordered", fmt.Sprintf("`bookmarks list` is not ordered by name: %q", order), w())
+		return false
+	}
+	// whatever collation "ordered by name" means for names beyond plain lower-case ASCII, it is one order: listing the
+	// same database again shows the same sequence
+	if _, out2, _, ok2 := run("bookmarks", "list"); ok2 && out2 != out {
+		e.Violation("bookmarks-list-order-unstable", fmt.Sprintf("two consecutive `bookmarks list` of the same database differ:\n%s\n---\n%s", trunc(out, 400), trunc(out2, 400)), w())
 		return false
 	}
 	// 2. database file
